@@ -471,7 +471,9 @@ class BusCookieAuthenticator :
         cookies = self._get_cookies()
 
         for i, tpl in enumerate(cookies):
-            if int(tpl[0]) == self.cookieId:
+            # ids are reused once a cookie has expired: only the entry
+            # that also holds our cookie is ours
+            if int(tpl[0]) == self.cookieId and tpl[2] == self.cookie:
                 del cookies[i]
                 break
 
